@@ -208,7 +208,7 @@ pub fn run_c01(out: &mut Out, rng: &mut Rng, tier: Tier) -> String {
         }
     }
     // one history on matrices beyond the size thresholds at which an implementation might switch algorithms
-    for &(nr, nc) in &LARGE[..3] {
+    for &(nr, nc) in LARGE[..3].iter().chain(VERY_LARGE.iter()) {
         for order in ORDERS {
             out.case(&format!("history large shape={nr}x{nc} order={} elem=tok ledger-deltas", ord_ch(order)));
             out.nontrivial();
